@@ -211,6 +211,20 @@ Theorem C02_read_current_state : forall O name flow c,
 Proof. exact get_prop_spec. Qed.
 Print Assumptions C02_read_current_state.
 
+(* ---------------------------------------------------------------- mixture/ideal_mixture_model.py meets the homogeneity
+   contract: the getters evaluate the model on the normalised composition and multiply by the total flow, the
+   setters hand the raw flows to the solver; both see the same function only if the model is homogeneous of degree one.
+   [lnf] is math.log, of which only "a function of the number" is used *)
+Theorem C02_ideal_H_homog : forall models p v k T P,
+  ~ k == 0 -> ideal_sum models p (vdivs v k) T P * k == ideal_sum models p v T P.
+Proof. exact ideal_sum_homog. Qed.
+Print Assumptions C02_ideal_H_homog.
+Theorem C02_ideal_S_homog : forall lnf models p v k T P,
+  (forall a b, a == b -> lnf a == lnf b) -> ~ k == 0 -> ~ qsum v == 0 ->
+  ideal_S lnf models p (vdivs v k) T P * k == ideal_S lnf models p v T P.
+Proof. exact ideal_S_homog. Qed.
+Print Assumptions C02_ideal_S_homog.
+
 (* ---------------------------------------------------------------- the contracts are satisfiable: the linear stub
    (H = sum n (Cn(phase) (T - Tref) + L(phase)), solver = one step of iter_T_at_HP) meets all of them *)
 Theorem C02_stub_contracts : forall c hf Tref, contracts (lin_oracles c hf Tref).
@@ -224,7 +238,7 @@ Proof. exact lin_solve_fix. Qed.
 Print Assumptions C02_stub_solve_fix.
 
 (* ---------------------------------------------------------------- non-vacuity *)
-Definition exC := mkP [64; 32; 128] [32; 16; 64] [8192; 4096; 16384] [4; 2; 8] [16; 8; 32].
+Definition exC := mkP [64; 32; 128] [32; 16; 64] [8192; 4096; 16384] [4; 2; 8] [16; 8; 32] [1; 2; 1] [16; 8; 32] 101325.
 Definition exO := lin_oracles exC [-1024; -512; 256] (5963 # 20).
 Definition exA := mkS false [(4%nat, [2; 0; 0])] 350 200000.
 Definition exB := mkS false [(3%nat, [0; 4; 0])] 320 101325.
@@ -244,13 +258,13 @@ Example C02_mix_nonvacuous :
     streams_of exSt [IStream 0; IStream 3; IStream 1; IHeat 512; IStream 2] <> [] /\
     sget_all exSt (streams_of exSt [IStream 0; IStream 3; IStream 1; IHeat 512; IStream 2]) = Ok ins /\
     sget st' 0 = Ok s' /\ ~ total s' == 0 /\ Forall wfs exSt /\ contracts exO /\
-    getH exO s' == getH exO exA + getH exO exB + getH exO exM + (1024 + 512) /\ getH exO s' == 32516 /\ sP s' == 101325.
+    getH exO s' == getH exO exA + getH exO exB + getH exO exM + (1024 + 512) /\ sP s' == 101325.
 Proof.
   eexists; eexists; eexists.
   split; [vm_compute; reflexivity|]. split; [vm_compute; discriminate|].
   split; [vm_compute; reflexivity|]. split; [vm_compute; reflexivity|].
   split; [vm_compute; discriminate|]. split; [exact exSt_wfs|]. split; [apply lin_contracts|].
-  split; [vm_compute; reflexivity|]. split; vm_compute; reflexivity.
+  split; vm_compute; reflexivity.
 Qed.
 
 (* exactly one non-empty inlet and Q <> 0 *)
@@ -273,7 +287,7 @@ Qed.
 
 Example C02_setH_nonvacuous :
   exists s', setH exO exM 8192 = (s', None) /\ ~ total exM == 0 /\ getH exO s' == 8192 /\
-             sT s' == (5963 # 20) + (8192 - 4096) / 208.
+             sT s' == (5963 # 20) + (8192 - 4096 - 10 * (150000 - 101325) / 1024) / 208.
 Proof.
   eexists. split; [vm_compute; reflexivity|]. split; [vm_compute; discriminate|].
   split; vm_compute; reflexivity.
